@@ -148,18 +148,21 @@ fn finish_cli(
     let lib_who;
     let r = if reader_sel & 2 == 0 {
         lib_who = "lib-io";
-        rt.block_on(crate::lib_drv::lib_clone_io(
-            archive.clone(),
-            FragPlan::Random { seed: reader_sel | 1, max: 1 + (reader_sel % 5000) as usize },
-            PendPlan::Random { seed: reader_sel ^ 5, num: 1, den: 4 },
-            &[],
-            1 + (reader_sel % 7) as usize,
-        ))
+        crate::util::catch(|| {
+            rt.block_on(crate::lib_drv::lib_clone_io(
+                archive.clone(),
+                FragPlan::Random { seed: reader_sel | 1, max: 1 + (reader_sel % 5000) as usize },
+                PendPlan::Random { seed: reader_sel ^ 5, num: 1, den: 4 },
+                &[],
+                1 + (reader_sel % 7) as usize,
+            ))
+        })
+        .and_then(|x| x)
     } else {
         lib_who = "lib-http";
         let server = Server::start(archive.clone(), httpd::well_behaved());
         let url = server.url();
-        let r = rt.block_on(crate::lib_drv::lib_clone_http(&url, 0, 4));
+        let r = crate::util::catch(|| rt.block_on(crate::lib_drv::lib_clone_http(&url, 0, 4))).and_then(|x| x);
         rep.count("requests_served_to_library", server.take_log().len() as u64);
         r
     };
